@@ -10,15 +10,28 @@ open Drv Tb
 def isLAN (a b : Nat) : Bool :=
   a == 127 || a == 10 || (a == 172 && b ≥ 16 && b ≤ 31) || (a == 192 && b == 168) || (a == 169 && b == 254)
 
+/-- the /24 key of every v4-mapped address (`::ffff:a.b.c.d` lies in `::/24`): a number no IPv4 /24 has -/
+def mappedNet : Nat := 2 ^ 24
+
 def parseIP (s : String) : Addr :=
   if s == "none" then { subnet := 0, host := 0, lan := false, valid := false } else
+  let mapped := s.startsWith "m"
+  let s := if mapped then (s.drop 1).toString else s
   match (s.splitOn ".").map String.toNat! with
-  | [a, b, c, d] => { subnet := a * 65536 + b * 256 + c, host := d, lan := isLAN a b,
-                      valid := !(a == 0 && b == 0 && c == 0 && d == 0) }
+  | [a, b, c, d] =>
+    if mapped then
+      -- `AddrIsLAN` unmaps first; the address itself and its /24 are those of the IPv6 form
+      { subnet := mappedNet, host := a * 16777216 + b * 65536 + c * 256 + d, lan := isLAN a b, valid := true }
+    else
+      { subnet := a * 65536 + b * 256 + c, host := d, lan := isLAN a b,
+        valid := !(a == 0 && b == 0 && c == 0 && d == 0) }
   | _ => { subnet := 0, host := 0, lan := false, valid := false }
 
 def showIP (a : Addr) : String :=
-  if !a.valid then "none" else s!"{a.subnet / 65536}.{a.subnet / 256 % 256}.{a.subnet % 256}.{a.host}"
+  if !a.valid then "none"
+  else if a.subnet == mappedNet then
+    s!"m{a.host / 16777216}.{a.host / 65536 % 256}.{a.host / 256 % 256}.{a.host % 256}"
+  else s!"{a.subnet / 65536}.{a.subnet / 256 % 256}.{a.subnet % 256}.{a.host}"
 
 structure TD where
   t : Table := emptyTable 0
